@@ -299,6 +299,26 @@ func (g *Gen) RandomCase(lookalike bool, withTrailer bool) *Case {
 	return c
 }
 
+// ZoneOffsets are the fixed zones (seconds east of UTC) of ZonedCase.
+var ZoneOffsets = []int{0, 3600, -18000, 19800, 32400, -12600, 45900, 7200, -28800}
+
+// ZonedCase: a random case whose body ends in two to four time-typed fields that denote ONE instant in different zones (a UTC
+// TransactTime next to a local-market timestamp taken from the same clock reading), so that they are serialized back to back. The
+// canonical text of each is the clock reading in the value's own zone (what time.Time.Format prints for that value).
+func (g *Gen) ZonedCase() *Case {
+	c := g.RandomCase(false, false)
+	inst := time.Date(1971+g.R.Intn(120), time.Month(1+g.R.Intn(12)), 1+g.R.Intn(28), g.R.Intn(24), g.R.Intn(60), g.R.Intn(60), g.R.Intn(1000)*1000000, time.UTC)
+	offs := append([]int{}, ZoneOffsets...)
+	g.R.Shuffle(len(offs), func(i, j int) { offs[i], offs[j] = offs[j], offs[i] })
+	for i := 0; i < 2+g.R.Intn(3); i++ {
+		c.M.Body = append(c.M.Body, Node{K: "kv", Tag: g.freshTag(c.M.Tags), Ty: "time", Pop: true, Via: []string{"new", "set"}[g.R.Intn(2)],
+			Zone: offs[i], Txt: ToB(Canon("time", inst.In(time.FixedZone("", offs[i]))))})
+	}
+	c.M.Norm()
+	c.ID += "/zoned"
+	return c
+}
+
 func (g *Gen) pick(s []string) []byte { return []byte(s[g.R.Intn(len(s))]) }
 
 // NeighbourCase: flat header / body of text fields whose values BEGIN with "<tag>=" of the field that follows or precedes them in
